@@ -244,8 +244,9 @@ class Folder:
     def fold_function_call(self, fi, call: ast.Call, module: str, env, self_cls) -> Any:
         """Fold a call to a small pure helper whose body is `return <expr>` (after an optional docstring)."""
         body = [s for s in fi.node.body if not (isinstance(s, ast.Expr) and isinstance(s.value, ast.Constant))]
-        if len(body) != 1 or not isinstance(body[0], ast.Return):
-            raise Unfoldable(f"{fi.qualname} is not a single-return helper")
+        simple = len(body) == 1 and isinstance(body[0], ast.Return)
+        if not simple and not all(isinstance(s, (ast.Return, ast.If, ast.Assign, ast.AnnAssign)) for s in body):
+            raise Unfoldable(f"{fi.qualname} is not a small pure helper")
         params = fi.params()
         if fi.cls and not fi.is_staticmethod:
             params = params[1:]
@@ -266,14 +267,53 @@ class Folder:
             if isinstance(v, ast.Name) and v.id in ("self", "cls") and v.id not in (env or {}) and self_cls is not None:
                 return SelfRef(self_cls)
             return self.fold(v, module, env, self_cls)
-        for p, v in zip(params, call.args):
-            local[p] = arg(v)
-        for k in call.keywords:
-            local[k.arg] = arg(k.value)
+        unknown = set()
+        for p, v in list(zip(params, call.args)) + [(k.arg, k.value) for k in call.keywords]:
+            try:
+                local[p] = arg(v)
+            except Unfoldable:
+                if simple:
+                    raise
+                local.pop(p, None)
+                unknown.add(p)          # only a problem if the evaluation below needs it
         for p in params:
-            if p not in local:
+            if p not in local and p not in unknown:
                 raise Unfoldable(f"missing argument {p} for {fi.qualname}")
-        return self.fold(body[0].value, fi.module, local, None)
+        if simple:
+            return self.fold(body[0].value, fi.module, local, None)
+        key = ("call", fi.qualname)
+        if key in self._stack:
+            raise Unfoldable("recursive helper")
+        self._stack.add(key)
+        try:
+            done, val = self._run(body, fi.module, local)
+        finally:
+            self._stack.discard(key)
+        if not done:
+            raise Unfoldable(f"{fi.qualname} falls off its end")
+        return val
+
+    def _run(self, stmts, module: str, local: Dict[str, Any]):
+        """(returned?, value) of a statement list made of constant-decidable ifs, assignments to locals and returns"""
+        for s in stmts:
+            if isinstance(s, ast.Expr) and isinstance(s.value, ast.Constant):
+                continue
+            if isinstance(s, ast.Return):
+                return True, (None if s.value is None else self.fold(s.value, module, local, None))
+            if isinstance(s, (ast.Assign, ast.AnnAssign)):
+                tg = s.targets if isinstance(s, ast.Assign) else [s.target]
+                if len(tg) != 1 or not isinstance(tg[0], ast.Name) or s.value is None:
+                    raise Unfoldable("assignment form")
+                local[tg[0].id] = self.fold(s.value, module, local, None)
+                continue
+            if isinstance(s, ast.If):
+                t = self.fold(s.test, module, local, None)
+                done, val = self._run(s.body if t else s.orelse, module, local)
+                if done:
+                    return True, val
+                continue
+            raise Unfoldable(f"statement {type(s).__name__}")
+        return False, None
 
     def fold_global(self, module: str, name: str) -> Any:
         q = self.m.resolve_name(module, name)
